@@ -327,7 +327,7 @@ func c01KnownReject(cs *c01Case, sonicErr error) (string, string) {
 }
 
 var c01TypeOpts = gen.TypeOpts{MaxDepth: 4, Catalogue: cat.All, Erroring: cat.Erroring, NoPtrKeys: true}
-var c01ValOpts = gen.ValOpts{MaxLen: 5, BadUTF8: true, NoEmptyKeys: false, NilChance: 5}
+var c01ValOpts = gen.ValOpts{BigSlices: true, MaxLen: 5, BadUTF8: true, NoEmptyKeys: false, NilChance: 5}
 
 // c01Case is one generated decode case.
 type c01Case struct {
